@@ -11,6 +11,7 @@ package iplddecoders
 
 import (
 	"bytes"
+	"errors"
 	"fmt"
 	"io"
 	"math"
@@ -316,6 +317,22 @@ func (in *c11Interp) exec(line string) (out string, nontrivial bool) {
 			}
 		}
 		return c11Line(f, c, false), f.class == "err"
+	case "schema":
+		if len(w) != 2 {
+			return "bad-op", false
+		}
+		return c11Schema(w[1]), true
+	case "schema-files":
+		root := c11RepoRoot()
+		a, err1 := os.ReadFile(filepath.Join(root, "ledger.ipldsch"))
+		b, err2 := os.ReadFile(filepath.Join(root, "ipld", "ipldbindcode", "ledger.ipldsch"))
+		if err1 != nil || err2 != nil {
+			return "unreadable", false
+		}
+		if !bytes.Equal(a, b) {
+			return "differ", false
+		}
+		return "same", true
 	case "longlist":
 		if len(w) != 4 {
 			return "bad-op", false
@@ -362,6 +379,44 @@ func (in *c11Interp) exec(line string) (out string, nontrivial bool) {
 		return out, out == "accepted-by-both"
 	}
 	return "bad-op", false
+}
+
+// c11Schema prints one type of the schema bindnode actually loaded (what drives the schema-driven decoder).
+func c11Schema(name string) string {
+	ts := ipldbindcode.Prototypes.Epoch.Type().TypeSystem()
+	switch t := ts.TypeByName(name).(type) {
+	case *schema.TypeStruct:
+		repr := "other"
+		if _, ok := t.RepresentationStrategy().(schema.StructRepresentation_Tuple); ok {
+			repr = "tuple"
+		}
+		parts := []string{"struct", repr}
+		for _, f := range t.Fields() {
+			flag := "req"
+			switch {
+			case f.IsOptional() && f.IsNullable():
+				flag = "optnull"
+			case f.IsOptional():
+				flag = "opt"
+			case f.IsNullable():
+				flag = "null"
+			}
+			parts = append(parts, f.Name()+":"+f.Type().Name()+":"+flag)
+		}
+		return strings.Join(parts, " ")
+	case *schema.TypeList:
+		n := "nonnull"
+		if t.ValueIsNullable() {
+			n = "nullable"
+		}
+		return "list " + t.ValueType().Name() + " " + n
+	case *schema.TypeBytes:
+		return "bytes"
+	case nil:
+		return "unknown-type"
+	default:
+		return fmt.Sprintf("other %T", t)
+	}
 }
 
 func c11Trunc(s string) string {
@@ -585,6 +640,13 @@ func (g *c11Gen) random(kind string) any {
 var c11NextStates = []int{0, 1, 2, 3, 4} // absent, null, [], [c], [c, c']
 
 func (g *c11Gen) generate(thorough bool) {
+	// --- the schema the reference decoder is driven by, type by type (the model carries its own copy) ---
+	g.emit("case schema")
+	g.emit("schema-files")
+	for _, t := range []string{"Epoch", "Subset", "Block", "Rewards", "SlotMeta", "Shredding", "Entry", "Transaction", "DataFrame",
+		"List__Link", "List__Shredding", "Hash", "Buffer"} {
+		g.emit("schema %s", t)
+	}
 	// --- every combination of absent / null / value of the optional fields, per kind (finite, exhaustive) ---
 	g.emit("case exhaustive-optionals DataFrame")
 	for h := 0; h < 3; h++ {
@@ -749,7 +811,7 @@ func (g *c11Gen) fixtures() {
 		for {
 			_, _, data, err := cr.NextNodeBytes()
 			if err != nil {
-				if err != io.EOF {
+				if !errors.Is(err, io.EOF) {
 					g.s.Count("fixture-car-read-error")
 				}
 				break
